@@ -296,6 +296,17 @@ func c04Scan(r *engine.Run, g geom.Geometry, c shapeCase) {
 		} else if d := refcodec.Diff(n, refcodec.Describe(gg)); d != "" {
 			bad("Geometry.Scan.notIdentical", d)
 		}
+		// a receiver that already holds another value (rows scanned into one variable)
+		used := geom.NewGeometryCollection([]geom.Geometry{geom.NewPointXYZM(9, 9, 9, 9).AsGeometry(), geom.NewLineStringXY(7, 7, 8, 8).AsGeometry()}).AsGeometry()
+		if err := used.Scan(src); err != nil {
+			bad("Geometry.Scan.reusedReceiver", err.Error())
+		} else if d := refcodec.Diff(n, refcodec.Describe(used)); d != "" {
+			bad("Geometry.Scan.reusedReceiver.notIdentical", d)
+		}
+		usedNull := geom.NullGeometry{Geometry: geom.NewPointXY(9, 9).AsGeometry(), Valid: true}
+		if err := usedNull.Scan(src); err != nil || !usedNull.Valid || refcodec.Diff(n, refcodec.Describe(usedNull.Geometry)) != "" {
+			bad("NullGeometry.Scan.reusedReceiver", fmt.Sprint(err, usedNull.Valid))
+		}
 		var ng geom.NullGeometry
 		if err := ng.Scan(src); err != nil || !ng.Valid {
 			bad("NullGeometry.Scan", fmt.Sprint(err, ng.Valid))
